@@ -142,3 +142,34 @@ def provided_write_input_rule(chk, P):
                         ((("Try::branch(%s)" % CALL, ("Break",)),), "FromResidual::from_residual(break!(Try::branch(%s)))" % CALL)}
     good = (form_map or form_try) and calls == [READ]
     chk.require(good, "ORG", "ORG:provided-write_input:error-passes-through", "write_input_and_read_output(inputs).map(|_| ()): one call, Err unchanged", "the provided write_input returns %s (driver calls %s, closure %s)" % (r, [c.split("::")[-1] for c in calls], sorted(pt, key=str) if pt else None))
+
+
+def popped_row_untouched_rule(chk, P):
+    """Both generators must see the evaluated, expanded row exactly as it was popped from the cache: in
+    get_row nothing writes into the popped row (no assignment through it, no index_mut / iter_mut / Vec
+    mutation on it) — otherwise a value reduced for one signal could be re-read for another signal that
+    shares the column, or an entry could change between the input and the expected generator."""
+    gr = P.body(TD + "get_row")
+    if not chk.anchor("get_row", gr):
+        return
+    ROW = "Option::unwrap(Vec::pop(self.cache))"
+    MUT = ("IndexMut<I>>::index_mut", "::iter_mut", "DerefMut>::deref_mut", "Vec::push", "Vec::insert", "Vec::remove", "Vec::clear", "Vec::truncate", "Vec::swap_remove", "Vec::retain", "::swap", "Vec::drain", "mem::replace", "mem::swap", "mem::take")
+    hits = []
+    for bb, t in gr.calls():
+        nm = callee_name(t)[0]
+        if any(nm.endswith(m) or m in nm for m in MUT):
+            a = [canon(x) for x in P.call_arg_terms(gr, bb)]
+            if a and a[0].startswith(ROW):
+                hits.append("%s(%s)" % (nm.split("::")[-1], a[0][:80]))
+    # the local(s) holding the popped row: assigned from Option::unwrap(Vec::pop(self.cache))
+    holders = set()
+    for bb, t in gr.calls():
+        if callee_name(t)[0] == "std::option::Option::unwrap" and not t["dest"]["p"]:
+            a = [canon(x) for x in P.call_arg_terms(gr, bb)]
+            if a and a[0] == "Vec::pop(self.cache)":
+                holders.add(t["dest"]["l"])
+    for bb in sorted(gr.reachable_blocks()):
+        for st in gr.blocks[bb]["stmts"]:
+            if st["s"] == "assign" and st["lhs"]["l"] in holders and st["lhs"]["p"]:
+                hits.append("assignment to %s%s" % (gr.local_name(st["lhs"]["l"]), "".join(".%s" % e.get("f") for e in st["lhs"]["p"] if isinstance(e, dict) and "f" in e)))
+    chk.require(bool(holders) and not hits, "ORG", "ORG:get_row:popped-row-not-modified", "nothing in get_row writes into the row between the pop and the generators", "get_row modifies the popped row before the generators read it: %s" % hits)
